@@ -32,7 +32,8 @@ Both == {FALSE, TRUE}
 Pos == {FALSE}
 
 \* option records
-O(api, impl, fsty, xty, uname, ucv) == [api |-> api, impl |-> impl, fsty |-> fsty, xty |-> xty, uname |-> uname, ucv |-> ucv, tbl |-> ""]
+O(api, impl, fsty, xty, uname, ucv) == [api |-> api, impl |-> impl, fsty |-> fsty, xty |-> xty, uname |-> uname, ucv |-> ucv, tbl |-> "", pset |-> ""]
+OP(pset, impl, uname) == [O("rxnstring", impl, "g", "float", uname, NoConv) EXCEPT !.pset = pset]
 OT(perm, xty, uname) == [O("table", TRUE, "g", xty, uname, NoConv) EXCEPT !.tbl = perm]
 Opts_num == { O("number", TRUE, "g", "float", "", NoConv), O("rxnstring", TRUE, "g", "float", "", NoConv),
               O("rxnstring", FALSE, "g", "float", "", NoConv), O("number", FALSE, "e", "float", "", NoConv),
@@ -45,7 +46,10 @@ Opts_num == { O("number", TRUE, "g", "float", "", NoConv), O("rxnstring", TRUE, 
               O("number", TRUE, "g", "uq", "1/M/s", NoConv),
               \* per-substance tables
               OT("same", "float", ""), OT("reversed", "float", "M"), OT("rotated", "npfloat", ""), OT("extra", "float", "M"),
-              OT("list", "float", "") }
+              OT("list", "float", ""), OT("alias", "float", "M"), OT("nosubst", "float", ""),
+              \* printer settings away from their defaults
+              OP("unitfmt", TRUE, "1/M/s"), OP("sep", FALSE, "m/s"), OP("sep", TRUE, ""), OP("named", TRUE, "1/M/s"),
+              OP("named", FALSE, "") }
 Opts_unc == { O("number", FALSE, "g", "float", "km", ConvOf("m", "km")), O("number", FALSE, "g", "float", "s", ConvOf("hour", "s")),
               O("number", TRUE, "g", "float", "km", ConvOf("cm", "m")), O("number", FALSE, "g", "npfloat", "min", ConvOf("hour", "min")),
               O("number", FALSE, "g", "float", "kg", NoConv), O("number", FALSE, "g", "float", "percent", NoConv),
